@@ -1466,6 +1466,12 @@ def gen_sh_history(rng, case, eid, nsteps):
     for _ in range(rng.choice([0, 1, 2])):
         name, ar = rng.choice([('p', 1), ('p', 2), ('q', 1)])
         ops.append(['assert', True, name, [rand_ground(rng, 1) for _ in range(ar)], rng.randrange(3)])
+    if tms and case.get('sh_common_term') is not None:
+        # the same argument objects go into every engine of the case (each engine then adds / reads on its own)
+        ti = case['sh_common_term']
+        ops.append(['assertshared', rng.random() < 0.7, 'p' if len(tms[ti]) == 1 else rng.choice(['p', 'q']), ti, rng.randrange(3)])
+        if rng.random() < 0.5:
+            probe(ops[-1][2], len(tms[ti]))
     used = set()
     n0 = len(ops)
     while len(ops) - n0 < nsteps:
@@ -1520,6 +1526,7 @@ def gen_sh_case(rng):
         funcs.append({'sig': sig, 'kind': rng.choice(SH_KINDS), 'rows': rows})
     tms = [[rand_plain(rng, 2) for _ in range(rng.choice([1, 2]))] for _ in range(rng.choice([1, 2, 3]))]
     case = {'neng': neng, 'writes': False, 'family': 'sh', 'scripts': [gen_script(rng)], 'shared': {'funcs': funcs, 'terms': tms}}
+    case['sh_common_term'] = rng.randrange(len(tms)) if rng.random() < 0.5 else None
     case['hist'] = [gen_sh_history(rng, case, e, rng.choice([4, 6, 8, 12])) for e in range(neng)]
     case['sched'] = gen_schedule(rng, [len(h) for h in case['hist']])
     return case
